@@ -321,7 +321,7 @@ pub fn run(ctx: &Ctx) {
             Some(FmtCase { fmt: d.iter().map(|x| FMT_ALPHA[*x as usize]).collect(), ts, filter: if which == 0 { "date".into() } else { "date_in_tz".into() } })
         }, fmt_oracle);
     }
-    ctx.random("templates", ctx.pick(40_000, 400_000), prog_strategy, prog_oracle);
+    ctx.random("templates", ctx.pick(200_000, 1_500_000), prog_strategy, prog_oracle);
 }
 
 
